@@ -54,7 +54,7 @@ class Hooks(object):
     def should_inline(self, I, name, fn):
         return True
 
-    def unroll_for(self, I, fn, header):
+    def unroll_for(self, I, fn, header, st=None):
         """Number of exactly interpreted iterations of the loop at `header` before it is abstracted (default: the same for all)."""
         return self.unroll
 
@@ -960,7 +960,7 @@ class Interp(object):
                 self.h.on_backedge(self, st, dst)
                 self.end_path(st, 'backedge', info=(fn.name, dst))
                 return 'end'
-            if rec[0] >= self.h.unroll_for(self, fn, dst):
+            if rec[0] >= self.h.unroll_for(self, fn, dst, st):
                 widen_now = True
             rec[0] += 1
         elif dst in loops and (dst not in fr.loops or (fr.loops[dst][1] and getattr(self.h, 'reenter_loops', True))):
@@ -984,7 +984,7 @@ class Interp(object):
         if first_entry:
             snap = dict((('phi', k), v) for k, v in newvals.items())
             fr.loops[dst][2] = snap                    # values on loop entry (+ '__guards__')
-            if self.h.widen_on_entry and self.h.unroll_for(self, fn, dst) == self.h.unroll:
+            if self.h.widen_on_entry and self.h.unroll_for(self, fn, dst, st) == self.h.unroll:
                 widen_now = True
             else:
                 slots, _c, _w, _s = self.carried_slots(st, fr, dst, phis, newvals)
